@@ -74,6 +74,15 @@ pub fn gen_ttfont(rng: &mut Rng, quick: bool) -> TtFont {
                 })
                 .collect();
             let il = if rng.chance(1, 3) { 1 + rng.below(12) } else { 0 };
+            let mut components: Vec<Component> = components;
+            if il > 0 && nc >= 2 && rng.chance(1, 2) {
+                // WE_HAVE_INSTRUCTIONS on a component other than (or in addition to) the last one
+                let k = rng.below(nc - 1);
+                components[k].extra_flags |= 0x100;
+                if rng.chance(1, 3) {
+                    components[nc - 1].extra_flags |= 0x100;
+                }
+            }
             Glyph::Composite(Composite { components, instructions: rng.bytes(il) })
         } else {
             let mut s = ig::gen_simple(rng, 5, 30, range);
@@ -181,7 +190,7 @@ fn same_glyph(a: &Glyph, b: &Glyph) -> bool {
                 let mut c = c.clone();
                 for k in &mut c.components {
                     k.force_words = false;
-                    k.extra_flags &= !0x400;
+                    k.extra_flags &= !(0x400 | 0x100);
                 }
                 Glyph::Composite(c)
             }
@@ -191,15 +200,26 @@ fn same_glyph(a: &Glyph, b: &Glyph) -> bool {
     norm(a) == norm(b)
 }
 
-struct Encoded {
-    bytes: Vec<u8>,
-    desc: String,
-    glyf_transformed: bool,
-    hmtx_transformed: bool,
-    elide: (bool, bool),
+pub(crate) struct Encoded {
+    pub(crate) bytes: Vec<u8>,
+    pub(crate) desc: String,
+    pub(crate) glyf_transformed: bool,
+    pub(crate) hmtx_transformed: bool,
+    pub(crate) elide: (bool, bool),
 }
 
-fn encode(font: &TtFont, rng: &mut Rng, cx: &mut Ctx) -> Encoded {
+pub(crate) fn encode(font: &TtFont, rng: &mut Rng, cx: &mut Ctx) -> Encoded {
+    let (tables, mut e) = encode_tables(font, rng, cx);
+    let chunk = *rng.pick(&[65536usize, 65536, 1000, 17, 4096]);
+    let with_meta = rng.chance(1, 5);
+    e.bytes = w2::build_woff2(font.flavor, &tables, None, chunk, rng, with_meta);
+    e.desc = format!("{} tables={} chunk={}", e.desc, tables.len(), chunk);
+    e
+}
+
+/// The WOFF2 table list (transformed payloads, directory attributes) for `font` with random encoder
+/// choices; `Encoded::bytes` is left empty. Also used by C01 to inject faults before wrapping.
+pub(crate) fn encode_tables(font: &TtFont, rng: &mut Rng, cx: &mut Ctx) -> (Vec<W2Table>, Encoded) {
     let glyf_t = rng.chance(3, 4);
     let enc = EncChoice::random(rng);
     let records: Vec<Vec<u8>> = font
@@ -261,16 +281,14 @@ fn encode(font: &TtFont, rng: &mut Rng, cx: &mut Ctx) -> Encoded {
     for f in classes {
         cx.class(&format!("triplet-flag:{:03}", f));
     }
-    let chunk = *rng.pick(&[65536usize, 65536, 1000, 17, 4096]);
-    let with_meta = rng.chance(1, 5);
-    let bytes = w2::build_woff2(font.flavor, &tables, None, chunk, rng, with_meta);
-    Encoded {
-        bytes,
-        desc: format!("glyf_transformed={} hmtx_transformed={} elide={:?} loca_long={} tables={} chunk={}", glyf_t, hmtx_t, elide, long, tables.len(), chunk),
+    let e = Encoded {
+        bytes: Vec::new(),
+        desc: format!("glyf_transformed={} hmtx_transformed={} elide={:?} loca_long={}", glyf_t, hmtx_t, elide, long),
         glyf_transformed: glyf_t,
         hmtx_transformed: hmtx_t,
         elide,
-    }
+    };
+    (tables, e)
 }
 
 fn compare<P: FontTableProvider + SfntVersion>(cx: &mut Ctx, font: &TtFont, p: &P, enc_desc: &str, woff2: &[u8]) -> bool {
@@ -367,7 +385,20 @@ fn compare<P: FontTableProvider + SfntVersion>(cx: &mut Ctx, font: &TtFont, p: &
         Some(m) => {
             for i in 0..n {
                 if m[i] != font.metrics[i] {
-                    let sig = if i >= nhm { "hmtx-tail-lsb-differs" } else if m[i].0 != font.metrics[i].0 { "hmtx-advance-differs" } else { "hmtx-lsb-differs" };
+                    // Narrow signature for the tail: the known defect rebuilds an elided leftSideBearing[]
+                    // array from the xMin of glyphs 0.. instead of glyphs numberOfHMetrics..
+                    let tail_elided = enc_desc.contains("elide=(true, true)") || enc_desc.contains("elide=(false, true)");
+                    let sig = if i >= nhm {
+                        if m[i].0 != font.metrics[i].0 {
+                            "hmtx-tail-advance-differs"
+                        } else if tail_elided && m[i].1 == xmin_of(&font.glyphs[i - nhm]) {
+                            "hmtx-tail-lsb-differs:elided-array-rebuilt-from-first-glyphs"
+                        } else if tail_elided {
+                            "hmtx-tail-lsb-differs:elided-array"
+                        } else {
+                            "hmtx-tail-lsb-differs:explicit-array"
+                        }
+                    } else if m[i].0 != font.metrics[i].0 { "hmtx-advance-differs" } else { "hmtx-lsb-differs" };
                     cx.violation("hmtx", sig, wit(format!("glyph {} (numberOfHMetrics {}): metrics {:?} expected {:?}", i, nhm, m[i], font.metrics[i])));
                     return false;
                 }
@@ -515,6 +546,9 @@ impl C11 {
             }
             if font.glyphs.iter().any(|g| matches!(g.0, Glyph::Composite(_))) {
                 cx.class("has-composite");
+                if font.glyphs.iter().any(|(g, _)| matches!(g, Glyph::Composite(c) if !c.instructions.is_empty() && c.components.len() >= 2 && c.components[..c.components.len() - 1].iter().any(|k| k.extra_flags & 0x100 != 0) && c.components[c.components.len() - 1].extra_flags & 0x100 == 0)) {
+                    cx.class("composite:instructions-flag-on-non-last-component-only");
+                }
             }
         }
         cx.nontrivial(hash_bytes(&e.bytes));
